@@ -33,8 +33,12 @@ def retry_hangs(job, out):
     ns = [r["n"] for r in out[1:] if hung(r)]
     if not ns:
         return out
-    again, rc, err = run_prefix_chunk({"history": job["history"], "ns": ns, "tmo_ms": 60000, "par": 1}, timeout=3600)
+    # the first two alone: if they all hang again the hang is systematic and the remaining verdicts stand as they are
+    again, rc, err = run_prefix_chunk({"history": job["history"], "ns": ns[:2], "tmo_ms": 8000, "par": 1}, timeout=3600)
     byn = {r["n"]: r for r in again[1:]}
+    if len(ns) > 2 and not all(hung(r) for r in again[1:]):
+        more, rc, err = run_prefix_chunk({"history": job["history"], "ns": ns[2:], "tmo_ms": 20000, "par": 1}, timeout=3600)
+        byn.update({r["n"]: r for r in more[1:]})
     return [out[0]] + [byn.get(r["n"], r) if hung(r) else r for r in out[1:]]
 
 
@@ -139,13 +143,13 @@ def c06_oracle(d):
                 rf = ref_fetch.get(pos)
                 if f.get("err") or (rf is not None and (f.get("sha"), f.get("len")) != (rf.get("sha"), rf.get("len"))):
                     fails.append(dict(n=n, kind="untouched-entry-content-differs", detail=[f, rf]))
-                for via in ("fs", "op"):
+                for via in ("fs", "op", "in"):
                     if via + "_len" in f and (f.get(via + "_err") or (rf is not None and (f.get(via + "_sha"), f.get(via + "_len")) != (rf.get("sha"), rf.get("len")))):
                         fails.append(dict(n=n, kind="untouched-entry-content-differs-via-" + via, detail=[f, rf]))
             else:
                 if not f.get("err"):
                     fails.append(dict(n=n, kind="torn-entry-returned-data-without-error", detail=f))
-                for via in ("fs", "op"):
+                for via in ("fs", "op", "in"):
                     if via + "_len" in f and not f.get(via + "_err"):
                         fails.append(dict(n=n, kind="torn-entry-returned-data-without-error-via-" + via, detail=f))
     return fails, len(res)
